@@ -27,6 +27,7 @@ import (
 	"sync/atomic"
 	"time"
 
+	"github.com/tikv/client-go/v2/internal/latch"
 	"github.com/tikv/client-go/v2/verifrt/ev"
 )
 
@@ -348,15 +349,16 @@ func renderHist(cfg config, h []uint64) []string {
 
 // replayArtefact is what is stored in replay files.
 type replayArtefact struct {
-	Part   string   `json:"part"`
-	Size   uint     `json:"latches_size"`
-	Pat    []int    `json:"slot_pattern"`
-	Fine   bool     `json:"slot_granularity"`
-	N      int      `json:"txns"`
-	Ops    []Op     `json:"ops,omitempty"`
-	B      *bCase   `json:"b_case,omitempty"`
-	Trace  []string `json:"trace,omitempty"`
-	Config string   `json:"config,omitempty"`
+	Part   string     `json:"part"`
+	Size   uint       `json:"latches_size"`
+	Pat    []int      `json:"slot_pattern"`
+	Fine   bool       `json:"slot_granularity"`
+	N      int        `json:"txns"`
+	Ops    []Op       `json:"ops,omitempty"`
+	B      *bCase     `json:"b_case,omitempty"`
+	Trace  []string   `json:"trace,omitempty"`
+	Config string     `json:"config,omitempty"`
+	C      *cArtefact `json:"c_case,omitempty"`
 }
 
 func artefact(cfg config, h []uint64) replayArtefact {
@@ -407,7 +409,7 @@ func main() {
 	partB := flag.Bool("partb-child", false, "internal: run part (b) in this process (GOMAXPROCS=1) and print JSON")
 	shard := flag.Int("shard", 0, "internal: part (b) shard")
 	nshard := flag.Int("nshard", 1, "internal: part (b) shard count")
-	only := flag.String("only", "", "a|b: run only one part (diagnostics)")
+	only := flag.String("only", "", "a|b|c: run only one part (diagnostics)")
 	cpuprof := flag.String("cpuprofile", "", "diagnostics")
 	flag.Parse()
 
@@ -432,7 +434,7 @@ func main() {
 	// part (b) runs concurrently in child processes
 	var bres *bResult
 	var bwg sync.WaitGroup
-	if *only != "a" {
+	if *only != "a" && *only != "c" {
 		bwg.Add(1)
 		go func() { defer bwg.Done(); bres = runPartB(thorough) }()
 	}
@@ -441,7 +443,7 @@ func main() {
 	samples := ev.NewSamples(6, run.Seed)
 	var cfgs []config
 	lays := layouts(thorough)
-	if *only != "b" {
+	if *only != "b" && *only != "c" {
 		for _, lay := range lays {
 			cfgs = append(cfgs, config{lay, false, 3, 3}) // <= 3 txns first
 		}
@@ -498,30 +500,51 @@ func main() {
 			break
 		}
 	}
+	// part (c): recycling of expired nodes (own budget on top of what part (a) left: a slow part
+	// (a) on a loaded machine must not starve it)
+	ctot := &cTotals{outcomes: map[string]bool{}}
+	csamples := ev.NewSamples(4, run.Seed)
+	if *only != "a" && *only != "b" {
+		cBudget := 60 * time.Second
+		if thorough {
+			cBudget = 12 * time.Minute
+		}
+		if d := time.Now().Add(cBudget); d.After(deadline) {
+			deadline = d
+		}
+		runPartC(thorough, ctot, csamples, stateCap)
+	}
 	bwg.Wait()
 
 	cov := ev.Coverage{
-		"states":                        tot.states,
-		"transitions":                   tot.transitions,
-		"traces_validated_against_impl": tot.transitions,
-		"evaluations":                   tot.transitions,
-		"distinct_nontrivial":           tot.nontrivial,
+		"states":                        tot.states + ctot.states,
+		"transitions":                   tot.transitions + ctot.transitions,
+		"traces_validated_against_impl": tot.transitions + ctot.transitions,
+		"evaluations":                   tot.transitions + ctot.transitions,
+		"distinct_nontrivial":           tot.nontrivial + ctot.nontrivial,
 		"rule": "part (a): BFS over canonical states (white-box slot dump + harness status + ghost, timestamps rank-compressed) of the real Latches; " +
 			"a transition is Start(key set, start ts position), Cont (slot granularity), Unlock(txn, commit ts position or 0) or a scheduler step; every transition's result is checked " +
 			"against the ghost oracle (exclusivity, exact staleness, progress). non-trivial = states in which some lock is blocked, pending wake-up or flagged stale. " +
-			"part (b): every order of Lock/UnLock calls of 3 callers through the real scheduler goroutine.",
-		"bounds":                      map[string]any{"pool_keys": poolSize, "max_depth_reached": tot.maxDepth, "configs": tot.perConfig},
-		"terminal_states":             tot.terminal,
-		"distinct_terminal_outcomes":  len(tot.distinctTerminalOutcomes),
+			"part (b): every order of Lock/UnLock calls of 3 callers through the real scheduler goroutine. " +
+			"part (c): the same BFS (concrete oracle-scale timestamps, no rank compression) started from generated cache states in which one slot holds P >= latchListCount nodes " +
+			"(P sequential lock/unlock pairs, commit ts 1 ms apart, optionally one without commit ts); then N transactions with <= K keys of that slot (and one of the other slot) whose start ts come from a grid " +
+			"that is less than / exactly / more than expireDuration after the different commit ts, commit ts from the same grid, plus <= R calls of the global recycle(currentTS) between any two steps; " +
+			"oracle as in part (a) with staleness information allowed (not required) to be forgotten once a timestamp >= expireDuration later has been presented. " +
+			"states / transitions / distinct_nontrivial are the sums of parts (a) and (c); per-part numbers under bounds.configs and part_c.",
+		"bounds": map[string]any{"pool_keys": poolSize, "max_depth_reached": tot.maxDepth, "configs": tot.perConfig,
+			"part_c": map[string]any{"hot_slot_keys": cHot, "latchListCount": latch.VerifLatchListCount, "expire_ms": latch.VerifExpireMS, "timestamp_offsets_ms": cOffs, "max_depth_after_setup": ctot.maxDepth, "configs": ctot.perConfig}},
+		"part_c":                      ctot.covMap(),
+		"terminal_states":             tot.terminal + ctot.terminal,
+		"distinct_terminal_outcomes":  len(tot.distinctTerminalOutcomes) + len(ctot.outcomes),
 		"real_ops_in_new_transitions": tot.realOps,
 		"real_ops_replayed":           tot.replayOps,
 		"outcome_counts": map[string]int64{"grants": tot.grant, "stale_at_first_acquire": tot.staleFirst, "stale_at_wakeup": tot.staleWake,
 			"blocked": tot.wait, "requeued_after_wakeup": tot.requeue, "wakeups": tot.wakeups, "wakeup_skipping_other_key_waiter_in_same_slot": tot.collisionSkip},
-		"samples": samples.List(),
+		"samples": append(samples.List(), csamples.List()...),
 	}
 	if bres != nil {
 		cov["part_b"] = bres.covMap()
-		cov["traces_validated_against_impl"] = tot.transitions + bres.Executions
+		cov["traces_validated_against_impl"] = tot.transitions + ctot.transitions + bres.Executions
 		for _, v := range bres.Viol {
 			run.Violation(v.Key, v.What, v.Replay)
 		}
@@ -530,7 +553,8 @@ func main() {
 		}
 	}
 	assumptions := []string{
-		"recycle() is out of scope: the pool has 4 keys (< latchListCount=5 nodes per slot, asserted on every state) and part (b) uses timestamps < 2^18 so that run() never starts latches.recycle",
+		"parts (a) and (b) never recycle: their pool has 4 keys (< latchListCount=5 nodes per slot, asserted on every state) and part (b) uses timestamps < 2^18 so that run() never starts latches.recycle; recycling is the subject of part (c)",
+		"part (c): 'stale exactly when' is read with the documented expiry: a grant is accepted although a requested key was released with a greater commit ts iff a timestamp whose physical part is >= expireDuration (2 min) later than that commit ts had been presented to the latches before (start ts of any acquire attempt or argument of recycle); a stale flag always needs a greater released commit ts. The global recycle is one atomic transition (it locks one slot at a time and the second slot holds a single key); timestamps come from a finite grid (bounds.part_c)",
 		"keys inside one Lock are distinct (txn.go passes the distinct mutation keys); a stale lock is always unlocked with commitTS 0 and a granted one with 0 or a commit ts > its start ts, as txn.go does",
 		"part (a) models the single scheduler goroutine: unlocks are processed one at a time, wake-ups of one release are re-acquired in list order before the next unlock; callers' first acquires interleave freely (slot granularity: between any two slot critical sections)",
 		"visited set keyed by a 128-bit SHA-256 prefix of the canonical state",
@@ -557,6 +581,10 @@ func doReplay(file string) {
 	a := f.Replay
 	if a.Part == "b" {
 		replayB(f.Key, a)
+		return
+	}
+	if a.Part == "c" {
+		replayCArtefact(a)
 		return
 	}
 	lay := mkLayout(a.Size, a.Pat)
